@@ -1,5 +1,232 @@
 import GnpyModel.Scalar
-/- model file Gn (see DESIGN.md §2) -/
-namespace Gnpy
+import GnpyModel.Interp
+/-
+C03 — the analytic GN model (gnpy/core/science_utils.py `NliSolver.compute_nli/_gn_analytic/_psi/
+effective_length`, eq. 120/123 of arXiv:1209.0394 in the non-uniform form GNPy uses) and the fibre
+coefficients it reads (gnpy/core/elements.py `Fiber.loss_coef_func/alpha/beta2/gamma`,
+gnpy/core/parameters.py `FiberParams.__init__/effective_area_scaling/gamma_scaling`).
 
-end Gnpy
+numpy broadcasting in `_psi`/`_gn_analytic`, spelled out (row index = cut `i`, column index = pump `j`):
+  `outer(x, ones)`  → `x_i`      (cut_baud_rate, cut_beta, gamma, cut_power)
+  `outer(ones, x)`  → `x_j`      (pump_beta, pump_baud_rate of `_gn_analytic`, pump_power)
+  a bare 1-D array  → `x_j`      (`pump_baud_rate = baud_rate`, `effective_length`, `asymptotic_length` in `_psi`
+                                  broadcast along the last axis, i.e. they are indexed by the PUMP)
+  `df[i][j] = f_j - f_i`         (`SpectralInformation._df`)
+-/
+namespace Gnpy.Gn
+
+/-- the constant π (`scipy.constants.pi` / `numpy.pi`); `Real.pi` in the proofs -/
+class HasPi (α : Type) where
+  pi : α
+
+instance : HasPi Float := ⟨3.141592653589793⟩
+
+/-- a channel loaded with the fibre coefficients evaluated at its own frequency -/
+structure LCh (α : Type) where
+  f : α       -- centre frequency [Hz]
+  b : α       -- baud rate [Hz]
+  p : α       -- power entering the fibre (after input connector and padding) [W]
+  alpha : α   -- `fiber.alpha(f)` [1/m]
+  beta2 : α   -- `fiber.beta2(f)` [s²/m]
+  gamma : α   -- `fiber.gamma(f)` [1/W/m]
+
+/-- what `FiberParams.__init__` keeps of the dispersion / area / loss description -/
+structure Fibre (α : Type) where
+  len : α                       -- [m]
+  refWl : α                     -- reference wavelength [m]
+  refF : α                      -- reference frequency [Hz]
+  dispTable : List (α × α)      -- `dispersion_per_frequency` (Hz, s/m/m); used when it has more than one knot
+  disp0 : α                     -- scalar dispersion [s/m/m]
+  slope : Option α              -- dispersion slope [s/m/m/m]
+  fDispRef : α                  -- reference frequency of the scalar dispersion (= `refF`)
+  effArea : α                   -- effective area at the reference frequency [m²]
+  lossTable : List (α × α)      -- per-frequency loss (Hz, dB/m); used when it has more than one knot
+  loss0 : α                     -- scalar loss coefficient [dB/m]
+
+section
+variable {α : Type} [Add α] [Sub α] [Mul α] [Div α] [Neg α] [NatCast α] [LT α] [LE α]
+  [DecidableLT α] [DecidableLE α] [Transc α] [HasPi α]
+
+local notation "N(" n ")" => ((n : Nat) : α)
+local notation "π" => (HasPi.pi : α)
+
+/-- `scipy.constants.c` -/
+def cLight : α := N(299792458)
+/-- `FiberParams._n1 = 1.468` -/
+def n1 : α := N(1468) / N(1000)
+/-- `FiberParams._core_radius = 4.2e-6` -/
+def coreRadius : α := N(42) / N(10000000)
+/-- `FiberParams._n2 = 2.6e-20` -/
+def n2 : α := N(26) / N(1000000000000000000000)
+
+/-! ### FiberParams.__init__ : reference wavelength/frequency, effective area -/
+
+/-- how the reference is given: `ref_wavelength`, else `ref_frequency`, else 1550 nm -/
+inductive RefSpec (α : Type) where
+  | wavelength (l : α)
+  | frequency (f : α)
+  | default
+
+/-- `(ref_wavelength, ref_frequency)` -/
+def refPair : RefSpec α → α × α
+  | .wavelength l => (l, cLight / l)
+  | .frequency f => (cLight / f, f)
+  | .default => (N(1550) / N(1000000000), cLight / (N(1550) / N(1000000000)))
+
+/-- effective area: the given one; else from the given gamma, `2π n2 / (λ_ref γ)`; else 83 µm² -/
+def resolveEffArea (ea g : Option α) (refWl : α) : α :=
+  match ea with
+  | some a => a
+  | none =>
+    match g with
+    | some g => N(2) * π * n2 / (refWl * g)
+    | none => N(83) / N(1000000000000)
+
+/-- `FiberParams._contrast` -/
+def contrast (fib : Fibre α) : α :=
+  let x := cLight / (N(2) * π * fib.refF * coreRadius * n1) * Transc.exp (π * (coreRadius * coreRadius) / fib.effArea)
+  N(1) / N(2) * (x * x)
+
+/-- `FiberParams.effective_area_scaling(frequency)` -/
+def effAreaScaling (fib : Fibre α) (f : α) : α :=
+  let v := N(2) * π * f / cLight * coreRadius * n1 * Transc.sqrt (N(2) * contrast fib)
+  let w := coreRadius / Transc.sqrt (Transc.log v)
+  π * (w * w)
+
+/-- `FiberParams.gamma_scaling(frequency)` = `Fiber.gamma(frequency)` -/
+def gammaAt (fib : Fibre α) (f : α) : α :=
+  N(2) * π * n2 * f / (cLight * effAreaScaling fib f)
+
+/-! ### Fiber.loss_coef_func / alpha / beta2 -/
+
+/-- `Fiber.loss_coef_func(f)` [dB/m]; `none` = SpectrumError (frequency outside the table) -/
+def lossCoef (fib : Fibre α) (f : α) : Option α :=
+  match fib.lossTable with
+  | _ :: _ :: _ => Interp.interp1d f fib.lossTable
+  | _ => some fib.loss0
+
+/-- `loss_coef / (10 * log10(exp(1)))` -/
+def alphaOfLoss (lossDbPerM : α) : α :=
+  lossDbPerM / (N(10) * (Transc.log (Transc.exp N(1)) / Transc.log N(10)))
+
+/-- `Fiber.alpha(f)` -/
+def alphaAt (fib : Fibre α) (f : α) : Option α := (lossCoef fib f).map alphaOfLoss
+
+/-- the dispersion `D(f)` [s/m/m] inside `Fiber.beta2` -/
+def dispersionAt (fib : Fibre α) (f : α) : Option α :=
+  match fib.dispTable with
+  | _ :: _ :: _ => Interp.interp1d f fib.dispTable
+  | _ =>
+    match fib.slope with
+    | none => some (f / fib.fDispRef * (f / fib.fDispRef) * fib.disp0)
+    | some s => some (fib.disp0 + s * (cLight / f - cLight / fib.fDispRef))
+
+/-- `beta2 = -((c / f) ** 2 * dispersion) / (2 * pi * c)` -/
+def beta2OfDisp (f d : α) : α := -(cLight / f * (cLight / f) * d) / (N(2) * π * cLight)
+
+/-- `Fiber.beta2(f)` -/
+def beta2At (fib : Fibre α) (f : α) : Option α := (dispersionAt fib f).map (beta2OfDisp f)
+
+/-- evaluate the fibre coefficients at the channel's frequency -/
+def load (fib : Fibre α) (f b p : α) : Option (LCh α) :=
+  match alphaAt fib f, beta2At fib f with
+  | some a, some b2 => some { f := f, b := b, p := p, alpha := a, beta2 := b2, gamma := gammaAt fib f }
+  | _, _ => none
+
+def loadAll (fib : Fibre α) : List (α × α × α) → Option (List (LCh α))
+  | [] => some []
+  | (f, b, p) :: rest =>
+    match load fib f b p, loadAll fib rest with
+    | some c, some cs => some (c :: cs)
+    | _, _ => none
+
+/-! ### NliSolver -/
+
+/-- `NliSolver.SPM_WEIGHT` -/
+def spmW : α := N(16) / N(27)
+/-- `NliSolver.XPM_WEIGHT` -/
+def xpmW : α := N(2) * (N(16) / N(27))
+
+/-- `NliSolver.effective_length(alpha, length)` -/
+def effLength (alpha len : α) : α := (N(1) - Transc.exp (-alpha * len)) / alpha
+
+/-- `NliSolver._psi` entry `[i][j]`: cut `ci`, pump `cj` (eq. 123 of arXiv:1209.0394) -/
+def psi (len : α) (ci cj : LCh α) : α :=
+  let la := N(1) / cj.alpha
+  let le := effLength cj.alpha len
+  let b2 := Transc.abs ((ci.beta2 + cj.beta2) / N(2))
+  let df := cj.f - ci.f
+  let right := df + cj.b / N(2)
+  let left := df - cj.b / N(2)
+  (Transc.asinh (π * π * la * b2 * ci.b * right) - Transc.asinh (π * π * la * b2 * ci.b * left)) / N(2)
+    * (le * le / (N(2) * π * b2 * la))
+
+/-- `NliSolver._gn_analytic` entry `[i][j]` for the weight `w` -/
+def eta (w len : α) (ci cj : LCh α) : α :=
+  ci.b * (ci.gamma * ci.gamma * w * psi len ci cj / (ci.b * (cj.b * cj.b)))
+
+/-- `nli_matrix[i][j] = cut_power * pump_power ** 2 * eta` -/
+def term (w len : α) (ci cj : LCh α) : α := ci.p * (cj.p * cj.p) * eta w len ci cj
+
+/-- row `i` of `nli_matrix` summed over the pumps `j = j0, j0+1, …`; the weight matrix is
+`spm·I + xpm·(1 − I)`, i.e. decided by the *indices* -/
+def rowSum (len : α) (i : Nat) (ci : LCh α) : Nat → List (LCh α) → α
+  | _, [] => N(0)
+  | j, cj :: rest => term (if i = j then spmW else xpmW) len ci cj + rowSum len i ci (j + 1) rest
+
+def nliFrom (len : α) (all : List (LCh α)) : Nat → List (LCh α) → List α
+  | _, [] => []
+  | i, ci :: rest => rowSum len i ci 0 all :: nliFrom len all (i + 1) rest
+
+/-- `NliSolver.compute_nli` (method `gn_model_analytic`): NLI power per channel [W] -/
+def nli (len : α) (cs : List (LCh α)) : List α := nliFrom len cs 0 cs
+
+/-- the whole of `compute_nli` from the fibre description and the spectrum `(f, baud, power)` sorted by frequency -/
+def computeNli (fib : Fibre α) (chans : List (α × α × α)) : Option (List α) :=
+  (loadAll fib chans).map (nli fib.len)
+
+/-! ### `SpectralInformation.__init__`: `indices = argsort(frequency)` – the channels are put in ascending frequency
+whatever the order they were supplied in (the frequencies of an accepted comb are distinct) -/
+
+/-- insert a channel `(f, baud, power)` into a list sorted by frequency -/
+def insertByF (c : α × α × α) : List (α × α × α) → List (α × α × α)
+  | [] => [c]
+  | d :: rest => if c.1 < d.1 then c :: d :: rest else d :: insertByF c rest
+
+def sortByF : List (α × α × α) → List (α × α × α)
+  | [] => []
+  | c :: rest => insertByF c (sortByF rest)
+
+/-- constructor + `compute_nli`: channels supplied in any order; the result is in ascending frequency -/
+def computeNliAny (fib : Fibre α) (chans : List (α × α × α)) : Option (List α) := computeNli fib (sortByF chans)
+
+/-! ### the same closed form with the weight decided by the frequencies (index-free form used for
+the order/added-channel laws; equal to `nli` on combs with pairwise distinct frequencies) -/
+
+/-- SPM weight on the channel itself, XPM weight on every other channel -/
+def wgtF (ci cj : LCh α) : α := if ci.f < cj.f ∨ cj.f < ci.f then xpmW else spmW
+
+/-- NLI generated on channel `ci` by the comb `cs` -/
+def nliOf (len : α) (cs : List (LCh α)) (ci : LCh α) : α :=
+  sumL (cs.map (fun cj => term (wgtF ci cj) len ci cj))
+
+def nliSpec (len : α) (cs : List (LCh α)) : List α := cs.map (nliOf len cs)
+
+/-! ### `SpectralInformation.__init__` checks on the frequency-sorted comb `(f, baud, slot)` -/
+
+/-- `f[:-1] + slot[:-1]/2 > f[1:] - slot[1:]/2` somewhere -/
+def combOverlap : List (α × α × α) → Bool
+  | c0 :: c1 :: rest => decide (c1.1 - c1.2.2 / N(2) < c0.1 + c0.2.2 / N(2)) || combOverlap (c1 :: rest)
+  | _ => false
+
+/-- `baud_rate > slot_width` somewhere -/
+def combExceed (l : List (α × α × α)) : Bool := l.any (fun c => decide (c.2.2 < c.2.1))
+
+/-- accepted by the constructor (`SpectrumError` otherwise) -/
+def combAccepted (l : List (α × α × α)) : Bool := !combOverlap l && !combExceed l
+
+/-- every power multiplied by `k` -/
+def scale (k : α) (c : LCh α) : LCh α := { c with p := k * c.p }
+
+end
+end Gnpy.Gn
